@@ -354,7 +354,7 @@ def run_check(prop, tier, seed, out=print):
             except Exception:
                 continue
             out(f"NOTE: shard {i} unfinished at the deadline, current case running for {now - c['t']:.0f} s")
-            if now - c["t"] > 150:
+            if now - c["t"] > getattr(mod, "STUCK_S", 90):
                 stuck_found = True
                 hung.append({"signature": "C10:does-not-return-within-cap", "case": c["case"],
                              "detail": {"stuck_for_s": round(now - c["t"]), "shard": i, "note": "the worker was killed by the runner's deadline while executing this case"}})
